@@ -30,6 +30,7 @@ def run(prog, chk):
     C.counting_against_moving_bound(prog, chk, "C03.j", SEQ + ("Array",))
     array_blocks_cover_capacity(prog, chk, "C03.k")
     first_match_search(prog, chk, "C03.l")
+    effects_survive_ndebug(prog, chk, "C03.m")
     # `a.append(a)` / `l.append(l)` / `a.append(a[0])` are operation histories of this property as well: the argument is part of the
     # sequence that the operation reallocates or grows (rule shared with C04.e)
     c04_alias.alias_rules(prog, chk, "C03.h")
@@ -255,3 +256,40 @@ def first_match_search(prog, chk, rid):
                     raise AnalysisBroken("%s::%s(const T&): neither a delegation to find nor a stepped cursor was recognised" % (cls, short))
     if n < 3:
         raise AnalysisBroken("first_match_search: only %d of List::find, Array::find, List::remove(const T&) found" % n)
+
+
+def effects_survive_ndebug(prog, chk, rid):
+    """the analysed program is the release configuration (NDEBUG): ASSERT(x) drops x, VERIFY(x) keeps evaluating it.  An element
+    construction or destruction that sits inside an ASSERT exists only in debug builds - the release container advances its size over
+    slots nobody constructed.  Decided by comparing the two configurations of the same source."""
+    from .. import facts, q
+    from ..facts import AnalysisBroken
+    chk.rule(rid, "SIB (configurations): every member of Array, List and PoolList has the same number of placement-new expressions and explicit "
+                  "destructor calls with and without NDEBUG (no element is constructed or destroyed inside an ASSERT)", floor=20)
+    dbg = facts.load_program(repo=getattr(prog, "repo", None) or facts.REPO, ndebug=False, cache=getattr(prog, "cache", True)) if getattr(prog, "ndebug", True) else None
+    if dbg is None:
+        raise AnalysisBroken("C03.m: the debug configuration of the program is not available")
+    n = 0
+    for cls in ("Array", "List", "PoolList"):
+        for tn, fs in sorted(C.class_insts(prog, cls).items()):
+            for f in fs:
+                if f.cls != tn or not f.blocks:
+                    continue
+                g = dbg.functions.get(f.sig)
+                if g is None or not g.blocks:
+                    continue
+                a = (len(C.placement_news(f)), len(C.dtor_events(f)))
+                b = (len(C.placement_news(g)), len(C.dtor_events(g)))
+                if a == (0, 0) and b == (0, 0):
+                    continue
+                n += 1
+                if a == b:
+                    chk.ok(rid, f, "%d construction(s), %d destruction(s) in both configurations" % a, "%s:%s" % (f.file, f.line), "NDEBUG vs debug AST", evals=2)
+                else:
+                    lost = C.placement_news(g) or [d for d, _o in C.dtor_events(g)]
+                    chk.bad(rid, f, "effect-only-in-debug-build", g.where(lost[0]) if lost else "%s:%s" % (f.file, f.line),
+                            "%s has %d placement-new / %d destructor call(s) in the debug configuration but %d / %d with NDEBUG: one sits inside an "
+                            "ASSERT, which the release build does not evaluate - the container's size moves over slots that were never constructed "
+                            "(or destroyed)" % (f.name, b[0], b[1], a[0], a[1]), evals=2)
+    if n < 20:
+        raise AnalysisBroken("C03.m: only %d constructing/destroying members compared" % n)
